@@ -37,6 +37,9 @@ def build_harness(race=False):
         shutil.copyfile(os.path.join(REPO, 'go.sum'), os.path.join(h, 'go.sum'))
     except OSError as e:
         raise Infra('go.sum: %s' % e)
+    if REPO != '/repo':
+        # a snapshot of the repository (background runs): point the module replacement at it
+        subprocess.run(['go', 'mod', 'edit', '-replace', 'github.com/vicanso/pike=' + REPO], cwd=h, env=GOENV)
     out = os.path.join(BUILD, 'pikeharness-race' if race else 'pikeharness')
     cmd = ['go', 'build', '-tags', 'verif']
     if race:
